@@ -24,7 +24,21 @@ import (
 )
 
 const repo = "/repo"
-const verif = "/verif"
+// verif is the framework root: the parent of the directory holding this executable (so that a
+// snapshot of /verif run elsewhere uses its own files), /verif as a fallback.
+var verif = func() string {
+	if r := os.Getenv("VERIF_ROOT"); r != "" {
+		return r
+	}
+	if exe, err := os.Executable(); err == nil {
+		if d := filepath.Dir(filepath.Dir(exe)); d != "" {
+			if _, err := os.Stat(filepath.Join(d, "sim", "runner", "runner.go")); err == nil {
+				return d
+			}
+		}
+	}
+	return "/verif"
+}()
 const goBin = "/opt/veriftools/go1.26.8/bin/go"
 
 type engine struct {
